@@ -57,7 +57,7 @@ func ruleCniAddDel(c *Ctx, rule string) {
 				}
 				return false
 			})
-			c.ob(rule, fn, "rollback starts at the index of the failing network", del[0], idxVal != nil && callArgs(del[0])[1] == idxVal, "CmdDel(cmdArgs, idx) with idx the index of the network whose ADD failed")
+			c.ob(rule, fn, "rollback starts at the index of the failing network", del[0], idxVal != nil && throughParams(callArgs(del[0])[1]) == idxVal, "CmdDel(cmdArgs, idx) with idx the index of the network whose ADD failed")
 			// prevResult chaining
 			n := 0
 			allInstrs(fn, func(in ssa.Instruction) {
@@ -86,6 +86,13 @@ func ruleCniAddDel(c *Ctx, rule string) {
 		if len(cons) != 1 || len(del) != 1 || len(save) != 1 {
 			c.undecided(rule, fn, "consumeNetworkInfo / DelegateDel / saveNetworkInfo", nil, "expected exactly one call of each in CmdDel")
 		} else {
+			// the per-network step may have been moved into a helper: loop shape, error test and what follows are judged at
+			// the call of that helper in CmdDel
+			delSite := siteIn(fn, del[0])
+			if delSite == nil {
+				c.undecided(rule, fn, "DelegateDel", del[0], "the call is not reached from CmdDel through one static call")
+				return
+			}
 			c.ob(rule, fn, "state is consumed before any DEL", del[0], precedes(fn, toInstrs(cons), del[0]), "consumeNetworkInfo precedes DelegateDel")
 			ne := guardEdges(fn, predCall("os.IsNotExist", nil))
 			okNE := len(ne) == 1
@@ -122,15 +129,15 @@ func ruleCniAddDel(c *Ctx, rule string) {
 				}
 				return false
 			})
-			okLoop, whyLoop := loopLeftOnlyWhenExhausted(c, del[0].Parent(), del[0])
+			okLoop, whyLoop := loopLeftOnlyWhenExhausted(c, fn, delSite)
 			c.ob(rule, fn, "every network of the list gets its DEL (a failing one does not stop the walk)", del[0], okLoop, "the loop around DelegateDel has no break/return: after a failed DEL the lower networks are still torn down in this request, and only the failed ones are remembered for the retry "+whyLoop)
 			c.ob(rule, fn, "DEL runs in reverse order of ADD", del[0], desc, "the network given to DelegateDel is indexed by a counter that decreases by 1 each iteration")
 			// failed DELs are collected and re-saved in ADD order; the DEL fails
-			ts := errTests(del[0])
+			ts := errTests(delSite)
 			okApp := len(ts) > 0
 			for _, t := range ts {
 				app := false
-				r := reachFromEdge(t.ErrEdge, newCut().instr(del[0]))
+				r := reachFromEdge(t.ErrEdge, newCut().instr(delSite))
 				for in := range r.instrs {
 					if st, ok := in.(*ssa.Store); ok && typeNameOf(st.Val.Type()) == "NetworkInfo" {
 						if ia, ok := st.Addr.(*ssa.IndexAddr); ok {
@@ -146,7 +153,7 @@ func ruleCniAddDel(c *Ctx, rule string) {
 			}
 			c.ob(rule, fn, "a network whose DEL failed is remembered", del[0], okApp, "the err!=nil edge of DelegateDel appends the network to the failed list before the next iteration")
 			ei := errResultIndex(fn)
-			okSave := c.reachAfter(del[0], nil).has(save[0])
+			okSave := c.reachAfter(delSite, nil).has(save[0])
 			r := c.reachAfter(save[0], nil)
 			nret := 0
 			for _, ret := range returns(fn) {
@@ -188,16 +195,20 @@ func ruleRequestPortMapping(c *Ctx, rule string) {
 	if fn == nil {
 		return
 	}
-	del := calls(fn, cniutilPkg+".CmdDel")
-	cl := calls(fn, "(*Galaxy).cleanupPortMapping")
-	su := calls(fn, "(*Galaxy).setupPortMapping")
+	del := callsAllX(fn, cniutilPkg+".CmdDel")
+	cl := callsAllX(fn, "(*Galaxy).cleanupPortMapping")
+	su := callsAllX(fn, "(*Galaxy).setupPortMapping")
 	if len(del) != 1 || len(su) != 1 || len(cl) < 2 {
 		c.undecided(rule, fn, "CmdDel / setupPortMapping / cleanupPortMapping", nil, "expected one CmdDel, one setupPortMapping and two cleanupPortMapping calls")
 		return
 	}
 	for _, m := range cl {
 		if c.reachAfter(del[0], nil).has(m) {
-			ok, dec := onlyAfterSuccess(fn, del[0], m)
+			host := fn
+			if m.Parent() == del[0].Parent() {
+				host = m.Parent() // the DEL branch was moved into a method of its own
+			}
+			ok, dec := onlyAfterSuccess(host, del[0], m)
 			c.ob(rule, fn, "port mappings are removed only after the network DEL succeeded", m, ok && dec, "cleanupPortMapping reachable only through the err==nil edge of CmdDel (a failed DEL is retried with the mappings intact)")
 		}
 	}
@@ -360,7 +371,7 @@ func ruleStateFileOwnership(c *Ctx, rule string) {
 			for root.Parent() != nil {
 				root = root.Parent()
 			}
-			c.ob(rule, fn, "the network state file is removed only by consumeNetworkInfo", rm, root.Name() == "consumeNetworkInfo", "os.Remove in package cniutil appears only in consumeNetworkInfo: the file re-saved with the failed DELs must survive until the next DEL consumes it")
+			c.ob(rule, fn, "the network state file is removed only by consumeNetworkInfo", rm, bareName(root) == "consumeNetworkInfo", "os.Remove in package cniutil appears only in consumeNetworkInfo: the file re-saved with the failed DELs must survive until the next DEL consumes it")
 		}
 	}
 	if n == 0 {
@@ -372,9 +383,15 @@ func ruleStateFileOwnership(c *Ctx, rule string) {
 		bad := ""
 		for in, gs := range la.info[fn].callees {
 			for _, g := range gs {
-				if g.Pkg == fn.Pkg && g.Name() != "saveNetworkInfo" && g.Name() != "CmdDel" && g.Name() != "DelegateAdd" && g.Name() != "BuildCNIArgs" {
+				if g.Pkg == fn.Pkg && bareName(g) != "saveNetworkInfo" && bareName(g) != "CmdDel" && bareName(g) != "DelegateAdd" && bareName(g) != "BuildCNIArgs" {
 					// any other same-package helper must not reach os.Remove / WriteFile
-					if reachesCallee(la, g, map[*ssa.Function]bool{}, "os.Remove", "os.RemoveAll", "io/ioutil.WriteFile", "os.WriteFile") {
+					seen := map[*ssa.Function]bool{}
+					for _, allowed := range []string{"saveNetworkInfo", "CmdDel"} {
+						if af := c.Fn(cniutilPkg, allowed); af != nil {
+							seen[af] = true // reaching the state file through these two is the rule
+						}
+					}
+					if reachesCallee(la, g, seen, "os.Remove", "os.RemoveAll", "io/ioutil.WriteFile", "os.WriteFile") {
 						bad = fnName(g) + " at " + c.instrPos(in)
 					}
 				}
